@@ -4,7 +4,7 @@ import ast
 
 from .. import AnalysisError
 from ..cfg import ALL_KINDS, NORMAL_KINDS, iter_own
-from ..lib import _single_return, dominated_by, guard_forms, key_of, norm, render, return_conditions
+from ..lib import _single_return, both_orders, dominated_by, guard_forms, key_of, norm, render, return_conditions
 from ..report import describe, rule
 
 P = "C18"
@@ -182,7 +182,7 @@ def submit_returns(ctx, r, rid):
         res = jid = None
         for n, k, c in path:
             if k in ("T", "F") and c is not None:
-                conds.add(norm(ctx, fn, c, None, pol=(k == "T")))
+                conds |= both_orders([norm(ctx, fn, c, None, pol=(k == "T"))])
             if n.kind == "stmt" and isinstance(n.ast, ast.Assign) and isinstance(n.ast.targets[0], ast.Name):
                 if n.ast.targets[0].id == rv.id:
                     res = ctx.src(n.ast.value)
@@ -243,7 +243,7 @@ def c18_5(ctx, r):
     ok_succ = None
     for n in cfg.nodes:
         for d, k, c in n.succ:
-            if k in ("T", "F") and c is not None and norm(ctx, fn, c, None, pol=(k == "T")) == ("ret == 0", True) and any(l is lp for l in ctx.enclosing(fn, c, (ast.For,))) and n.kind == "test" and _is_exit_test(ctx, fn, n):
+            if k in ("T", "F") and c is not None and ("ret == 0", True) in both_orders([norm(ctx, fn, c, None, pol=(k == "T"))]) and any(l is lp for l in ctx.enclosing(fn, c, (ast.For,))) and n.kind == "test" and _is_exit_test(ctx, fn, n):
                 seen, stack = set(), [d]
                 bad = False
                 while stack:
